@@ -153,7 +153,7 @@ def report(a, findings, bad, qs, info, t0):
                          "Ctx::load_variable inside make_function is the nearest-binding lookup that the find_name obligations decide (composition stated, not re-executed)",
                          "std models used: " + ", ".join(sorted(set(sum(info["models"].values(), []))))],
         "functions_encoded": info["functions"], "paths": info["paths"],
-        "bounds": "%d call-stack shapes: 1..3 frames (module frame + every arrangement of function / <if> / <while> frames), the name x bound or not in each frame, a bystander y in the module frame; every value a full-width symbolic i32, every flag byte symbolic over {0, READ_ONLY} (the flags a real program produces; LOCAL_FRAME_ONLY and LOOP_VARIABLE are never set in the repository); closures capturing none / x / y / x and y; deeper stacks, more names, how the interpreter sequences these operations (Function::run, `call`) outside" % info["shapes"],
+        "bounds": "%d call-stack shapes: 1..3 frames (1..4 in the thorough tier) (module frame + every arrangement of function / <if> / <while> frames), the name x bound or not in each frame, a bystander y in the module frame; every value a full-width symbolic i32, every flag byte symbolic over {0, READ_ONLY} (the flags a real program produces; LOCAL_FRAME_ONLY and LOOP_VARIABLE are never set in the repository); closures capturing none / x / y / x and y; deeper stacks, more names, how the interpreter sequences these operations (Function::run, `call`) outside" % info["shapes"],
         "solver_time_s": round(qs.solver_s, 2),
         "samples": qs.samples[:8] + list(new.values())[:3],
         "known_findings_reported": len(listed), "new_violations": len(new),
